@@ -18,7 +18,7 @@ from mc.gen import c19_kernels as G
 ID = "C19"
 LEVEL = "model_checking"
 EXHAUSTIVE = True
-CASE_TIMEOUT = 1800
+CASE_TIMEOUT = 3600
 RULE = ("kernels = mc.gen.c19_kernels.corpus(tier): families A..G, each the full "
         "product of its listed parameter sets (1-3 term assignments over active "
         "xa, ya, u(i), u(i-1), u(i+1), v(i), w(i,j) with passive coefficients "
@@ -52,7 +52,7 @@ ASSUMPTIONS = [
     "libgfortran's random_number is replaced at link time by a deterministic "
     "generator of multiples of 1/16 so that the verdict is reproducible",
 ]
-BLOCK = 6
+BLOCK = 3
 
 
 def bounds(tier):
@@ -146,6 +146,8 @@ def run_psyad(src, active, create_test=False):
     except (TangentLinearError, NotImplementedError, VisitorError) as err:
         return ("refused", type(err).__name__, str(err))
     except Exception as err:  # pylint: disable=broad-except
+        if type(err).__name__ == "_Timeout":
+            raise       # the runner's per-case alarm: a harness error
         return ("crash", type(err).__name__, str(err))
     return ("ok", adj, test)
 
@@ -237,6 +239,8 @@ def check_element(key, items, active, harness=False):
     try:
         ad_tree = parse(adj)
     except Exception as err:  # pylint: disable=broad-except
+        if type(err).__name__ == "_Timeout":
+            raise
         return "viol", [{
             "key": ekey, "sig": f"adjoint-not-parsable|{key}|act={act}",
             "msg": f"the adjoint written by PSyAD for kernel {key} (active "
